@@ -15,7 +15,7 @@ structure IfRec where
 def rxLimit (r : IfRec) : Nat := if r.cfg.mtu = 0 then r.img.length else r.cfg.mtu
 
 structure BlockSide where
-  ifs  : Array (Option IfRec) := Array.replicate 8 none
+  ifs  : Array (Option IfRec) := Array.replicate 32 none
   glob : Glob := {}
   prevTx : List (Nat × List Nat) := []     -- frames accepted by the port during the previous op (interface, bytes)
   curTx  : List (Nat × List Nat) := []
@@ -30,6 +30,7 @@ def testBit (m k : Nat) : Bool := (m / k) % 2 == 1
 def setIfaceAttr (c : Cfg) (creating : Bool) (k v : String) : Option Cfg :=
   let u32max := 4294967295
   match k with
+  | "align" => if creating && (v == "0" || v == "2") then some c else none      -- where the receive buffer starts relative to a word boundary: no matter to the core
   | "mtu" => (parseDec v).bind (fun n => if (n < 64 ∧ !(n = 0 ∧ !creating)) ∨ n > 65535 then none else some { c with mtu := n })   -- after creation: only up to the buffer size (checked by the caller)
   | "mac" => (parseFixed v 6).map (fun m => { c with mac := m })
   | "flags" => (parseDec v).bind (fun n => if n > u32max then none else some { c with flags := n })
@@ -56,6 +57,8 @@ def setGlobAttr (g : Glob) (k v : String) : Option Glob :=
   | "hostrep" => if v == "full" then some { g with hostFull := true } else if v == "copied" then some { g with hostFull := false } else none
   | "hwid" => (parseHex v).bind (fun m => if m.length > 255 then none else some { g with hwid := m })
   | "icon" => if v == "none" then some { g with icon := none } else (parseBlob v).map (fun m => { g with icon := some m })
+  | "failsize" => (parseDec v).bind (fun n => if n > 1000000 then none else some g)      -- what a FAILING icon / name query leaves in its size output: a failure all the same
+  | "memcmprep" => if v == "wide" || v == "byte" then some g else none      -- the magnitude of lltd_port_memcmp's answer: only its sign is specified
   | "sendok" => if v == "len" || v == "zero" then some g else none          -- what a successful transmit returns (never negative): accepted all the same
   | "mtuclobber" => (parseDec v).bind (fun n => if n > 65535 then none else some g)    -- what a FAILING MTU query leaves in its output: the fallback is used all the same
   | "failrc" => (parseInt v).bind (fun i => if i = 0 ∨ i < -1000 ∨ i > 1000 then none else some g)     -- which non-zero code a failing getter returns: failure all the same
@@ -87,12 +90,16 @@ def showObsAll (I : Nat) (st : Option St) : List String :=
   | some s => (List.range s.sees.length).zip s.sees |>.map (fun (k, o) => s!"obs {I} {k} {toHex (obsWire o)}")
 
 /-- returns none for a malformed op -/
-def blockStep (w : World) (b : BlockSide) (toks : List String)
+def blockStep (w : World) (b : BlockSide) (toks0 : List String)
     (getMap getSess : Nat → Option Fsm) (getTbl : Nat → Option Table) :
     Option (World × BlockSide × List String × List (Nat × Fsm)) :=
+  -- `ev … off=2`: where in memory the image starts (2 bytes past a word boundary) does not matter to the classification
+  let toks := match toks0 with
+    | ["ev", i, hex, av, tb, off] => if off == "off=2" || off == "off=0" then ["ev", i, hex, av, tb] else toks0
+    | _ => toks0
   match toks with
   | "iface" :: i :: attrs =>
-    (parseIdx i 8).bind fun I =>
+    (parseIdx i 32).bind fun I =>
     if (b.ifs[I]?.getD none).isSome then none else
     let init : Option (Cfg × Nat) := some ({ idx := I }, 0)
     let r := attrs.foldl (fun acc t => acc.bind (fun (c, buf0) =>
@@ -102,7 +109,7 @@ def blockStep (w : World) (b : BlockSide) (toks : List String)
     r.map fun (c, buf0) =>
       (w, { b with ifs := b.ifs.set! I (some { cfg := c, img := List.replicate c.mtu buf0, st := none }) }, ["ok"], [])
   | "set" :: i :: attrs =>
-    (parseIdx i 8).bind fun I =>
+    (parseIdx i 32).bind fun I =>
     (b.ifs[I]?.getD none).bind fun rec =>
     let r := attrs.foldl (fun acc t => acc.bind (fun c => (splitKV t).bind (fun (k, v) => setIfaceAttr c false k v))) (some rec.cfg)
     r.bind fun c =>
@@ -113,7 +120,7 @@ def blockStep (w : World) (b : BlockSide) (toks : List String)
     let r := attrs.foldl (fun acc t => acc.bind (fun g => (splitKV t).bind (fun (k, v) => setGlobAttr g k v))) (some b.glob)
     r.map fun g => (w, { b with glob := g }, ["ok"], [])
   | "rx" :: i :: hex :: rest =>
-    (parseIdx i 8).bind fun I =>
+    (parseIdx i 32).bind fun I =>
     (b.ifs[I]?.getD none).bind fun rec =>
     (parseHex hex).bind fun frame =>
     if frame.length > rxLimit rec then none else
@@ -123,13 +130,13 @@ def blockStep (w : World) (b : BlockSide) (toks : List String)
     some (w, { b with ifs := b.ifs.set! I (some { rec with img := img, st := st }), curTx := b.curTx ++ sentOf fx },
           fx.map showFx ++ (match flt with | some f => [showFault f] | none => []) ++ [showSt I st], [])
   | ["dump", i] =>
-    (parseIdx i 8).bind fun I =>
+    (parseIdx i 32).bind fun I =>
     (b.ifs[I]?.getD none).bind fun rec =>
     some (w, b, showObsAll I rec.st ++ [showSt I rec.st], [])
   | ["note", _] => some (w, b, ["ok"], [])
   | "relay" :: a :: bb :: rest =>
-    (parseIdx a 8).bind fun A =>
-    (parseIdx bb 8).bind fun Bi =>
+    (parseIdx a 32).bind fun A =>
+    (parseIdx bb 32).bind fun Bi =>
     if (b.ifs[A]?.getD none).isNone || (b.ifs[Bi]?.getD none).isNone then none else
     let zero := rest == ["zero"]
     let frames := (b.prevTx.filter (fun p => p.1 == A)).map (·.2)
@@ -145,7 +152,7 @@ def blockStep (w : World) (b : BlockSide) (toks : List String)
          out ++ [s!"deliver {Bi} {toHex frame}"] ++ fx.map showFx ++ (match flt with | some f => [showFault f] | none => []))) (w, b, [])
     some (r.1, r.2.1, r.2.2 ++ [showSt Bi (((r.2.1.ifs[Bi]?.getD none).map (·.st)).getD none)], [])
   | "linuxrx" :: i :: m :: s :: hex :: rest =>
-    (parseIdx i 8).bind fun I =>
+    (parseIdx i 32).bind fun I =>
     (parseIdx m 16).bind fun M =>
     (parseIdx s 16).bind fun S =>
     (b.ifs[I]?.getD none).bind fun rec =>
@@ -162,7 +169,7 @@ def blockStep (w : World) (b : BlockSide) (toks : List String)
     some (w, { b with ifs := b.ifs.set! I (some { rec with img := img, st := st }), curTx := b.curTx ++ sentOf fx },
           fx.map showFx ++ (match flt with | some f => [showFault f] | none => []) ++ [showSt I st], [(M, fm'), (S, fs')])
   | ["ev", i, hex, av, tb] =>
-    (parseIdx i 8).bind fun I =>
+    (parseIdx i 32).bind fun I =>
     (b.ifs[I]?.getD none).bind fun rec =>
     (parseHex hex).bind fun frame =>
     if !av.startsWith "avail=" || !tb.startsWith "tbl=" then none else
